@@ -44,7 +44,7 @@
 //! verify the validity of C. This is done via an IPA proof for relation
 //! PoK { s in F^l : <s, LAGRANGE_BASES> = σ /\ <s, DUAL_MSM_RHS_BASES> = C }.
 
-use std::{collections::BTreeMap, io};
+use std::{cell::RefCell, collections::BTreeMap, io, rc::Rc};
 
 use group::Group;
 use midnight_circuits::{
@@ -115,6 +115,8 @@ pub struct LightAggregator<const NB_PROOFS: usize> {
     aggregator_vk: VerifyingKey,
     aggregator_pk: ProvingKey,
     lagrange_commitments: Vec<C>,
+    // Number of (plain) public inputs that the aggregator circuit binds.
+    nb_public_inputs: usize,
 }
 
 #[derive(Clone, Debug)]
@@ -127,6 +129,8 @@ struct AggregatorCircuit<const NB_PROOFS: usize> {
     // This will be generalized in subsequent PRs.
     instances: Value<[[F; 2]; NB_PROOFS]>,
     proofs: [Value<Vec<u8>>; NB_PROOFS],
+    // Number of (plain) public inputs bound by the circuit, recorded during synthesis.
+    nb_public_inputs: Rc<RefCell<Option<usize>>>,
 }
 
 impl<const NB_PROOFS: usize> Circuit<F> for AggregatorCircuit<NB_PROOFS> {
@@ -217,6 +221,8 @@ impl<const NB_PROOFS: usize> Circuit<F> for AggregatorCircuit<NB_PROOFS> {
 
         verifier_chip.constrain_acc_as_public_input_with_committed_scalars(&mut layouter, &acc)?;
 
+        *self.nb_public_inputs.borrow_mut() = Some(scalar_chip.nb_public_inputs());
+
         scalar_chip.load(&mut layouter)?;
         sponge_chip.load(&mut layouter)?;
 
@@ -243,6 +249,7 @@ impl<const NB_PROOFS: usize> LightAggregator<NB_PROOFS> {
             ),
             instances: Value::unknown(),
             proofs: vec![Value::unknown(); NB_PROOFS].try_into().unwrap(),
+            nb_public_inputs: Rc::new(RefCell::new(None)),
         };
 
         // TODO: Remove, we are hardcoding BLS constants here.
@@ -257,6 +264,9 @@ impl<const NB_PROOFS: usize> LightAggregator<NB_PROOFS> {
         let aggregator_vk = keygen_vk(srs, &default_aggregator_circuit)?;
         let aggregator_pk = keygen_pk(aggregator_vk.clone(), &default_aggregator_circuit)?;
 
+        let nb_public_inputs = (*default_aggregator_circuit.nb_public_inputs.borrow())
+            .expect("the number of public inputs is recorded by keygen");
+
         Ok(Self {
             inner_vk: inner_vk.clone(),
             aggregator_vk,
@@ -266,6 +276,7 @@ impl<const NB_PROOFS: usize> LightAggregator<NB_PROOFS> {
             // Lagrange commitments of the (downsized) SRS. A per-proof estimate undercounts for
             // NB_PROOFS = 1 (quotient pieces, permutation products, opening proof...).
             lagrange_commitments: srs.g_lagrange().to_vec(),
+            nb_public_inputs,
         })
     }
 
@@ -337,6 +348,7 @@ impl<const NB_PROOFS: usize> LightAggregator<NB_PROOFS> {
             ),
             instances: Value::known(instances.clone().map(|v| v.try_into().unwrap())),
             proofs: proofs.clone().map(Value::known),
+            nb_public_inputs: Rc::new(RefCell::new(None)),
         };
 
         let mut aggregator_instances = AssignedVk::<S>::as_public_input(&self.inner_vk);
@@ -443,6 +455,13 @@ impl<const NB_PROOFS: usize> LightAggregator<NB_PROOFS> {
                 .flat_map(<S as SelfEmulation>::AssignedPoint::as_public_input)
                 .collect::<Vec<_>>(),
         );
+
+        // The sizes of the accumulator are read from the (untrusted) proof, whereas the
+        // circuit binds a fixed number of instance rows: rows beyond them would be
+        // unconstrained, so the instance vector must have exactly that length.
+        if aggregator_instances.len() != self.nb_public_inputs {
+            return Err(Error::InvalidInstances);
+        }
 
         let proof_dual_msm = {
             prepare::<F, KZGCommitmentScheme<E>, T>(
